@@ -63,6 +63,9 @@ def configs(tier):
             add(3, 1, 2, 6, reb, True, 2, 1)
         add(3, 1, 3, 6, True, False, 1, 1)
         add(3, 2, 3, 6, False, True, 1, 1)        # d = 3 together with lmin = 2
+        # the alternative coarsening versions started from lmin = 2 (components at the minimum level are coarsened below it there)
+        for version in (2, 3):
+            add(2, 2, 3, version, False, True, 5, 1, towards=[[0.3, 0.3]])
         # graded refinement towards a point: deep histories with few events per state
         for version in (6, 7, 8, 2, 3):
             for reb in (False, True):
